@@ -120,16 +120,21 @@ class DNAGenerator(symbolic.Object):
         returns False, otherwise it's a tuple of floats.
     """
     if self.needs_feedback:
-      if self.multi_objective and isinstance(reward, float):
-        reward = (reward,)
-      elif not self.multi_objective and isinstance(reward, tuple):
-        if len(reward) != 1:
-          raise ValueError(
-              f'{self!r} is single objective, but the reward {reward!r} '
-              f'contains multiple objectives.')
-        reward = reward[0]
-      self._feedback(dna, reward)
+      self._feedback(dna, self._normalized_reward(reward))
     self._num_feedbacks += 1
+
+  def _normalized_reward(
+      self, reward: Union[float, Tuple[float]]) -> Union[float, Tuple[float]]:
+    """Returns the reward in the form `_feedback` expects."""
+    if self.multi_objective and isinstance(reward, float):
+      reward = (reward,)
+    elif not self.multi_objective and isinstance(reward, tuple):
+      if len(reward) != 1:
+        raise ValueError(
+            f'{self!r} is single objective, but the reward {reward!r} '
+            f'contains multiple objectives.')
+      reward = reward[0]
+    return reward
 
   def _feedback(self, dna: DNA, reward: Union[float, Tuple[float]]) -> None:
     """Actual feedback method which should be implemented by the child class.
@@ -158,6 +163,8 @@ class DNAGenerator(symbolic.Object):
         (via feedback).
     """
     for i, (dna, reward) in enumerate(history):
+      if reward is not None and self.needs_feedback:
+        reward = self._normalized_reward(reward)
       self._replay(i, dna, reward)
       self._num_proposals += 1
       if reward is not None:
